@@ -80,3 +80,33 @@ T("D21b", "C16", L + "util.py", "    old_test_result.result |= test_result.resul
   "|= written as `or`")
 T("D21c", "C16", L + "rsa_aggregate_checks.py", "    for i in range(len(gcds)):\n      test_result = self._CreateTestResult()\n      key = artifacts[i]\n",
   "    for i, key in enumerate(artifacts):\n      test_result = self._CreateTestResult()\n", "CheckGCD loop via enumerate")
+
+# ---------------------------------------------------------------------------------- C01
+F("A01", "C01", L + "rsa_util.py", "    b2 += a\n    a += 1\n    b2 += a\n", "    b2 += a\n    a += 1\n", "R-C01-CERT", "Fermat: second b2 update lost")
+F("A02", "C01", L + "rsa_util.py", "      return a + gmpy.isqrt(b2), a - gmpy.isqrt(b2)", "      return a + gmpy.isqrt(b2), a - gmpy.isqrt(b2) - 1", "R-C01-CERT", "Fermat: off by one factor")
+F("A03", "C01", L + "rsa_util.py", "    if gmpy.is_square(b2):\n      return a + gmpy.isqrt(b2)", "    if b2 >= 0:\n      return a + gmpy.isqrt(b2)", "R-C01-CERT", "Fermat: square test dropped")
+T("A07", "C01", L + "rsa_util.py", "    b2 += a\n    a += 1\n    b2 += a\n", "    a += 1\n    b2 = a * a - n\n", "Fermat: non-incremental update")
+T("A08", "C01", L + "rsa_util.py", "    if gmpy.is_square(b2):\n      return a + gmpy.isqrt(b2), a - gmpy.isqrt(b2)\n", "    if gmpy.is_square(b2):\n      r = gmpy.isqrt(b2)\n      return a + r, a - r\n", "Fermat: temp for isqrt")
+F("A09", "C01", L + "rsa_util.py", "          d = s**2 - n\n", "          d = s**2 + n\n", "R-C01-CERT", "HighLow: d = s^2 + n")
+F("A10", "C01", L + "rsa_util.py", "    p = gmpy.gcd(ax * w + cx, n)\n    if 1 < p < n:", "    p = gmpy.gcd(ax * w + cx, n)\n    if 1 <= p < n:", "R-C01-PROPER", "CheckFraction: 1 <= p")
+F("A11", "C01", L + "rsa_util.py", "    if 1 < p < n:\n      return True, [p, n // p]", "    if 1 < p < n:\n      return True, [p, (n - 1) // p]", "R-C01-CERT", "Pollard: (n-1)//p")
+F("A12", "C01", L + "rsa_util.py", "        p = gmpy.gcd(n, 2 * a * x + b + rt)", "        p = gmpy.gcd(m, 2 * a * x + b + rt)", "R-C01-CERT", "CF: gcd with m")
+F("A13", "C01", L + "rsa_util.py", "          if rem0 == 0:\n            return True, [p0, q0]", "          if rem0 <= 1:\n            return True, [p0, q0]", "R-C01-CERT", "LHW: rem0 <= 1")
+F("A14", "C01", L + "special_case_factoring.py", "          return [g, n // g]", "          return [g, n // (g + 1)]", "R-C01-CERT", "FactorWithGuess: n // (g+1)")
+F("A15", "C01", L + "rsa_single_checks.py", "        if p * q == n:\n", "        if p * q <= n:\n", "R-C01-SINK", "Keypair: p*q <= n")
+F("A16", "C01", L + "rsa_aggregate_checks.py", "        util.AttachFactors(key.test_info, consts.INFO_NAME_N_FACTORS, factors)", "        util.AttachFactors(artifacts[i - 1].test_info, consts.INFO_NAME_N_FACTORS, factors)", "R-C01-SINK", "CheckGCD: factors attached to neighbour")
+F("A17", "C01", L + "rsa_aggregate_checks.py", "            key.test_info, consts.INFO_NAME_NM1_FACTORS, [gcds[i]]", "            key.test_info, consts.INFO_NAME_N_FACTORS, [gcds[i]]", "R-C01-SINK", "GCDN1 under N_FACTORS")
+F("A18", ["C01", "C16"], L + "rsa_single_checks.py",
+  "        util.AttachFactors(key.test_info, consts.INFO_NAME_N_FACTORS, factors)\n        any_weak = True\n        test_result.result = True\n      util.SetTestResult(key.test_info, test_result)\n    return any_weak\n\n\nclass CheckHighAndLowBitsEqual",
+  "        util.AttachFactors(key.test_info, consts.INFO_NAME_N_FACTORS, factors)\n      util.SetTestResult(key.test_info, test_result)\n    return any_weak\n\n\nclass CheckHighAndLowBitsEqual",
+  None, "CheckFermat: attach without marking weak")
+F("A19", "C01", L + "util.py", "    factors = factors.union(old_set)  # update", "    factors = factors  # update", "R-C01-MERGE", "union -> overwrite")
+F("A20", "C01", L + "rsa_util.py", "  return [gcds_dict[v] for v in values]", "  return [gcds_dict[v] for v in unique_values]", "R-C01-CERT", "BatchGCD: result over unique_values")
+T("A21", "C01", L + "rsa_util.py", "  return [gcds_dict[v] for v in values]", "  out = [gcds_dict[x] for x in values]\n  return out", "BatchGCD: temp + rename")
+F("A30", "C01", L + "rsa_aggregate_checks.py", "        factors = [gcds[i], gmpy.mpz(util.Bytes2Int(key.rsa_info.n)) // gcds[i]]", "        factors = [gcds[i], gmpy.mpz(util.Bytes2Int(key.rsa_info.e)) // gcds[i]]", "R-C01-SINK", "CheckGCD: cofactor of e")
+F("A31", "C01", L + "rsa_aggregate_checks.py", "      if gcds[i] != 1:", "      if gcds[i] != 0:", "R-C01-SINK", "CheckGCD: flags gcd 1")
+F("A32", "C01", L + "rsa_single_checks.py", "      factors = rsa_util.FermatFactor(n, self._max_steps)", "      factors = rsa_util.FermatFactor(n + 2, self._max_steps)", "R-C01-SINK", "Fermat applied to n+2")
+F("A33", "C01", L + "rsa_util.py", "  if n % 2 == 0:\n    return 2, n // 2", "  if n % 2 == 1:\n    return 2, n // 2", "R-C01-CERT", "Fermat parity guard flipped")
+F("A34", "C01", L + "rsa_util.py", "  if a * a == n:\n    return a, a", "  if a * a <= n:\n    return a, a", "R-C01-CERT", "Fermat square guard weakened")
+F("A35", "C01", L + "rsa_util.py", "            return [s - d_sqrt, s + d_sqrt]", "            return [s - d_sqrt, s + d_sqrt + 2]", "R-C01-CERT", "HighLow: wrong second factor")
+T("A36", "C01", L + "special_case_factoring.py", "        if 1 < g < n:\n          return [g, n // g]", "        if g > 1 and g < n:\n          return [g, n // g]", "guard split")
